@@ -495,6 +495,8 @@ def replay(item):
                 v = fl.faultlog
                 if sorted(v) != sorted(fl._map) or any(v[k].timestamp != fl._map[k] for k in fl._map if k in v):
                     problems.append(f"view {sorted(v)} is not the current map {sorted(fl._map)}")
+                if list(v) != sorted(v):
+                    problems.append(f"view not in position order (newest first): {list(v)}")
             except Exception:  # noqa: BLE001
                 pass
             inv(C)
